@@ -293,10 +293,10 @@ def FKind.fitsVal : FKind → FVal → Bool
     else decide (0 ≤ n ∧ n < (2 : Int) ^ w)
   | .fixedArr elem len, .bytes b => b.length == elem * len
   | .arr elem, .bytes b => elem == 1 && decide (b.length < 65536)
-  | .arr elem, .nums l => elem != 1 && decide (l.length < 65536) && l.all (fun n => decide (n < 256 ^ elem))
+  | .arr elem, .nums l => elem != 1 && decide (l.length * elem < 65536) && l.all (fun n => decide (n < 256 ^ elem))
   | .str, .bytes b => decide (b.length < 65536)
   | .bitArr, .bits n b => decide (n < 65536) && b.length == (n + 7) / 8
-  | .rest, .bytes _ => true
+  | .rest, .bytes b => decide (b.length < 65536)
   | _, _ => false
 
 /-- field values match the field list (pads carry no value) -/
@@ -310,25 +310,6 @@ def fitsFields : List Field → List FVal → Bool
       | [] => false
   | [], _ :: _ => false
 
-/-- no field's byte length wraps in the 16-bit size arithmetic of `getHeader` (`fieldsSz`): an array of multi-byte
-elements, or a `rest` field, of 2^16 bytes or more inside a parameter would make the declared TLV length lie -/
-def fieldsNoWrap : List Field → List FVal → Bool
-  | [], _ => true
-  | f :: fs, vs =>
-    match f.kind with
-    | .pad _ => fieldsNoWrap fs vs
-    | .arr elem =>
-      match vs with
-      | .nums l :: vs' => decide (l.length * elem < 65536) && fieldsNoWrap fs vs'
-      | _ :: vs' => fieldsNoWrap fs vs'
-      | [] => true
-    | .rest =>
-      match vs with
-      | .bytes b :: vs' => decide (b.length < 65536) && fieldsNoWrap fs vs'
-      | _ :: vs' => fieldsNoWrap fs vs'
-      | [] => true
-    | _ => fieldsNoWrap fs vs.tail
-
 mutual
 /-- `v` is a well-formed value of parameter type `ty` whose encoding (header included) is shorter than 2^16 -/
 def fitsParam (S : Schema) : Nat → String → Val → Bool
@@ -337,7 +318,7 @@ def fitsParam (S : Schema) : Nat → String → Val → Bool
     match S.param? ty with
     | none => false
     | some c =>
-      fitsFields c.fields fs && fieldsNoWrap c.fields fs && fitsSlots S fuel c.slots subs none &&
+      fitsFields c.fields fs && fitsSlots S fuel c.slots subs none &&
         decide (c.headerSize + fieldsSz c.fields fs + szSlots S fuel c.slots subs none < 65536)
 /-- cardinalities: required = 1, optional ≤ 1, repeatable any (required repeatable: at least 1, as the table's `1..n`); in a choice group exactly one member is present and it
 passes the encoder's "present?" test. `open` = a choice group whose member has not been seen yet / `served` -/
